@@ -145,7 +145,7 @@ pub open spec fn policy_failure(p: TrampolineRoutingPolicy) -> Seq<u8> {
            && final(g).fail_q[0]->failure_message@ == policy_failure(self.params.routing_policy))
 //@ ensures#only_fail_values_requested [C02]
       forall|i: int| 0 <= i < final(g).fail_q.len() ==> (#[trigger] final(g).fail_q[i]) is Fail
-//@ ensures#htlc_is_held_or_answered_at_once [C06,C07]
+//@ ensures#htlc_is_held_or_answered_at_once [C06,C07,C03]
       (old(payment_state).resolution is Some ==> sender.fate() == old(payment_state).resolution)
       && (old(payment_state).resolution is None ==>
             final(g).held == old(g).held.push(HeldAbs { amount: req.htlc.amount_msat, expiry: req.htlc.cltv_expiry }))
